@@ -15,7 +15,7 @@
 (***************************************************************************)
 EXTENDS PlainMap, Json
 
-CONSTANTS Keys, Vals, MaxVal, IsSet, None, Rej, EK, TName, NHeld
+CONSTANTS Keys, Vals, MaxVal, IsSet, None, Rej, EK, TName, NHeld, NEnum
 
 VARIABLE act
 mcvars == <<vars, act>>
@@ -38,7 +38,7 @@ Cfg == [t |-> TName, set |-> IsSet, none |-> None, rej |-> Rej, nil |-> HasNil, 
 \* in the int-to-object configuration)
 ValU == (0..MaxVal) \cup Vals
 
-MCInit == /\ m = EmptyFn /\ cfg = Cfg /\ arrs = <<>>
+MCInit == /\ m = EmptyFn /\ cfg = Cfg /\ arrs = <<>> /\ ens = <<>>
           /\ held = [i \in 1..NHeld |-> EmptyFn]
           /\ act = <<"Init", 0, 0, <<>>, <<>>>>
 
@@ -57,9 +57,15 @@ PutAllArgs == {<<<<>>, <<>>>>}
               \cup {<<<<k, k>>, <<VHi, VLo>>>> : k \in Keys}
 
 InsertNames == {"Put", "Unipoint"}
-ReadNames == IF Pair THEN {"Entries", "KeyArray", "ToBytes", "RoundTrip"}
+ReadNames == IF Pair THEN {"Entries", "KeyArray", "ToBytes"}
              ELSE {"IsEmpty", "ToString", "ToFormatString", "Keys", "Values", "Entries", "KeyArray",
-                   "ValueArray", "ToBytes", "RoundTrip"}
+                   "ValueArray", "ToBytes"}
+\* the same map afterwards, but its structure was rebuilt (open enumerators end)
+RebuildNames == {"RoundTrip"}
+\* NEnum > 0: the scope of STEPPED enumerations -- up to NEnum enumerators open
+\* at a time, opened and stepped one element at a time between all other calls
+\* what an enumerator of a kind can be claimed to yield
+CandOf(kd) == IF kd = "e" THEN Keys \X (ValU \cup Keys) ELSE Keys \cup ValU
 MemberNames == IF Pair THEN {"Get", "Contains"} ELSE {"Get", "ContainsKey", "Contains", "HasKey"}
 DirCount == IF Pair THEN 1 ELSE 3
 
@@ -74,13 +80,18 @@ MCNext ==
   \* read-only calls: stuttering steps, labelled so that the dumped state graph
   \* (below) makes the replayer issue them from every reachable state
   \/ \E n \in ReadNames : ReadOnly /\ Lbl(n, 0, 0)
+  \/ \E n \in RebuildNames : Rebuild /\ Lbl(n, 0, 0)
   \/ \E k \in Keys, n \in MemberNames : ReadOnly /\ Lbl(n, k, 0)
   \/ \E v \in ValU \cup {MaxVal + 1} : ~IsSet /\ ~Pair /\ ReadOnly /\ Lbl("ContainsValue", 0, v)
   \* several live objects: calls go to the other object; put-all with the other
   \* object (0: the object itself) as the argument
   \/ \E h \in 1..Len(held) : Swap(h) /\ Lbl("Swap", h, 0)
   \/ \E h \in 0..Len(held) : HasFrom /\ PutAllFrom(h) /\ Lbl("PutAllFrom", h, 0)
-  \/ \E i \in 1..DirCount : ReadOnly /\ Lbl("Sort", i, 0)
+  \/ \E i \in 1..DirCount : Rebuild /\ Lbl("Sort", i, 0)
+  \* stepped enumerations (label: which enumerator; the element is in ens')
+  \/ \E kd \in EnumKinds : Len(ens) < NEnum /\ EnumOpen(kd) /\ Lbl("EnumOpen", 0, 0)
+  \/ \E i \in 1..Len(ens) : \E x \in CandOf(ens[i].kind) : EnumNext(i, x) /\ Lbl("EnumNext", i, 0)
+  \/ Len(ens) > 0 /\ EnumForget /\ Lbl("EnumDrop", 0, 0)
 
 MCSpec == MCInit /\ [][MCNext]_mcvars
 
@@ -122,7 +133,7 @@ SeqPut(f, ks, vs, i) ==
   ELSE SeqPut(IF Rej /\ ks[i] = EK THEN f ELSE Upd(f, ks[i], IF IsSet THEN ks[i] ELSE vs[i]), ks, vs, i + 1)
 PutAllIsPutsA == A = "PutAll" => m' = SeqPut(m, act'[4], act'[5], 1)
 PutAllIsPuts == [][PutAllIsPutsA]_mcvars
-ReadOnlyKeepsA == A \in ReadNames \cup MemberNames \cup {"ContainsValue", "Sort"} => m' = m
+ReadOnlyKeepsA == A \in ReadNames \cup RebuildNames \cup MemberNames \cup {"ContainsValue", "Sort"} => m' = m
 ReadOnlyKeeps == [][ReadOnlyKeepsA]_mcvars
 \* a call on one object changes no other live object; Swap only changes which
 \* object the calls are made on
@@ -138,6 +149,40 @@ PutAllFromIsPutsA ==
     \A o \in {o \in SeqsUpTo(Keys, NK) : Injective(o) /\ Range(o) = DOMAIN src} :
        m' = SeqPut(m, o, [i \in 1..Len(o) |-> src[o[i]]], 1)
 PutAllFromIsPuts == [][PutAllFromIsPutsA]_mcvars
+\* ---- stepped enumerations ------------------------------------------------------
+\* opening and stepping an enumerator is not a modification: no map, no other
+\* enumerator changes; the stepped one grows by exactly one element
+EnumStepKeepsA ==
+  A \in {"EnumOpen", "EnumNext"} =>
+    /\ m' = m /\ held' = held
+    /\ A = "EnumOpen" => (Len(ens') = Len(ens) + 1 /\ \A i \in 1..Len(ens) : ens'[i] = ens[i])
+    /\ A = "EnumNext" => /\ Len(ens') = Len(ens)
+                          /\ \A i \in 1..Len(ens) : i # K => ens'[i] = ens[i]
+                          /\ Len(ens'[K].out) = Len(ens[K].out) + 1
+EnumStepKeeps == [][EnumStepKeepsA]_mcvars
+\* a read-only call leaves every open enumerator where it is
+ReadKeepsEnumsA == A \in ReadNames \cup MemberNames \cup {"ContainsValue"} => ens' = ens
+ReadKeepsEnums == [][ReadKeepsEnumsA]_mcvars
+\* an enumerator that has not yielded everything can always go on (the stepping
+\* rule never wedges): with EnumsOK, every enumeration that runs to its end
+\* without a modification in between is exactly an arrangement of the stored
+\* elements, whatever read-only calls and other enumerators ran in between
+EnumLive == \A i \in 1..Len(ens) :
+              EnumMore(i) => \E x \in CandOf(ens[i].kind) : ElemOK(ens[i].kind, ens[i].out, x)
+\* ... and whatever arrangement an enumeration is in the end, the stepping rule
+\* lets it be yielded element by element (no arrangement is excluded)
+EnumAny == \A kd \in EnumKinds : \A i \in 1..Len(ens) :
+             (ens[i].kind = kd /\ EnumMore(i)) =>
+               \A x \in CandOf(kd) :
+                 ElemOK(kd, ens[i].out, x) =
+                   (\E o \in SeqsUpTo(Keys, NK) :
+                      /\ Injective(o) /\ Range(o) = Stored
+                      /\ LET full == [j \in 1..Len(o) |-> CASE kd = "k" -> o[j]
+                                                            [] kd = "v" -> m[o[j]]
+                                                            [] kd = "e" -> <<o[j], m[o[j]]>>]
+                             pre  == Append(ens[i].out, x)
+                         IN SubSeq(full, 1, Len(pre)) = pre)
+
 \* the size moves by at most one per point operation, and exactly as membership says
 SizeLawA == A \in PointOps =>
               Cardinality(DOMAIN m') - Cardinality(DOMAIN m) =
